@@ -397,6 +397,29 @@ func (c *ctx) replay(b *beh) {
 					return e
 				}
 				wire = p.Dump()
+				// deriving a new archive must not disturb the directory it was derived from: the source
+				// directory still re-serialises to the original bytes, and an identity rewrite of it is a no-op
+				cdb, eodb, e := d.GetOriginalDirectory(false)
+				if e != nil || !bytes.Equal(append(append([]byte(nil), cdb...), eodb...), data[d.DirLoc:]) {
+					return fmt.Errorf("SOURCE-DISTURBED: after Mangle/MakePatch the source directory no longer re-serialises to the original bytes (%v)", e)
+				}
+				m2, e := d.Mangle(func(f *zipslicer.MangleFile) error { return nil })
+				if e != nil {
+					return fmt.Errorf("SOURCE-DISTURBED: second Mangle of the source directory: %v", e)
+				}
+				p2, e := m2.MakePatch(false)
+				if e != nil {
+					return fmt.Errorf("SOURCE-DISTURBED: second MakePatch: %v", e)
+				}
+				same, e := applyPatch("", 0, data, p2.Dump())
+				if e != nil {
+					return fmt.Errorf("SOURCE-DISTURBED: identity patch: %v", e)
+				}
+				if sv, e := stdView(same); e != nil {
+					return fmt.Errorf("SOURCE-DISTURBED: an identity rewrite of the source directory produces an unreadable archive: %v", e)
+				} else if ov, _ := stdView(data); len(sv) != len(ov) {
+					return fmt.Errorf("SOURCE-DISTURBED: identity rewrite changed the member list")
+				}
 				return nil
 			})
 			if err != nil {
